@@ -11,6 +11,7 @@ import itertools
 import os
 
 from mc import domains as D
+from mc.props import c01 as _c01
 from mc.engine import InputPart, Viol
 from mc.models import praatfmt
 from mc.props.common import call, scratch_dir, wellformed, errors
@@ -298,6 +299,10 @@ def parts(tier):
         InputPart("structure", gen_structure, check,
                   rule="all small structures: 0-3 intervals incl. blank-labelled, 0-3 points, empty tiers, per-tier spans, tier order",
                   bounds={}, chunk=4),
+        InputPart("size", lambda: ((t, m, tg, "repr", False) for t, m, tg, _ in _c01.layer_size(not quick)), check,
+                  rule="the size axis (shared with C01): files with 9-25 (thorough 100) tiers, tiers of 10-400 (thorough 1000) entries, labels and names with "
+                       "8-30 quote characters, 255-9000 characters, 10-40 lines, thousands of non-ASCII characters, written by the independent writer in every "
+                       "layout / encoding / newline style: the reader returns exactly what the file encodes", bounds={}, chunk=1),
         InputPart("number-notations", lambda: gen_numbers(not quick), check,
                   rule="every ordered pair of NUM values written in 5 notations (repr, always-float, trailing zero, exponent, EXPONENT) "
                        "with and without '-0' starts", bounds={}, chunk=4),
